@@ -44,15 +44,15 @@ TOL = 1e-9
 
 def cases(tier, seed):
     out = []
-    n = 40 if tier == 'quick' else 400
+    n = 40 if tier == 'quick' else 1500
     for i in range(n):
         out.append({'name': 'sweep-%d' % i, 'kind': 'sweep',
                     'seed': [seed, 111, i]})
-    n = 6 if tier == 'quick' else 50
+    n = 6 if tier == 'quick' else 200
     for i in range(n):
         out.append({'name': 'core-%d' % i, 'kind': 'core',
                     'seed': [seed, 112, i]})
-    n = 40 if tier == 'quick' else 400
+    n = 40 if tier == 'quick' else 2000
     for i in range(n):
         out.append({'name': 'direct-%d' % i, 'kind': 'direct',
                     'seed': [seed, 113, i]})
